@@ -79,7 +79,7 @@ def main():
             else:
                 line = "MISSED (" + ", ".join(f"{c}: exit {v.get('exit')}" for c, v in res.items()) + ")"
             first = "; ".join(v.get("first", "") for v in res.values() if v.get("first"))[:220]
-            note = f" ({meta['rebased'][:60]}...)" if meta.get("rebased") else ""
+            note = f" ({meta["rebased"][:60]}...)" if meta.get("rebased") else (" (no longer breaks the property: " + meta["neutralised"][:80] + "...)" if meta.get("neutralised") else "")
             f.write(f"| {sd} | {line}{note} | {first.replace('|', '/')} |\n")
 
 
